@@ -3,6 +3,7 @@
 //! usage: harness <property> [--seed N] [--tier quick|thorough] [--shard i/n] [--out FILE] [extra…]
 mod common;
 mod c13;
+mod c11;
 mod c08;
 mod c14;
 mod c12;
@@ -37,6 +38,7 @@ pub fn eval_request(req: &str) -> String {
     let r = guarded(std::panic::AssertUnwindSafe(|| {
         None // one line per property module
             .or_else(|| c13::eval(op, a))
+            .or_else(|| c11::eval(op, a))
             .or_else(|| c08::eval(op, a))
             .or_else(|| c14::eval(op, a))
             .or_else(|| c12::eval(op, a))
@@ -66,6 +68,10 @@ fn main() {
     if args.len() < 2 {
         eprintln!("usage: harness <property> [--seed N] [--tier T] [--shard i/n] [--out FILE]");
         std::process::exit(2);
+    }
+    if args[1] == "reprochild" {
+        c11::child_main(&args[2..]);
+        return;
     }
     let prop = args[1].clone();
     let mut seed = 1u64;
@@ -111,6 +117,7 @@ fn main() {
             }
         }
         "C13" => c13::gen(&mut ctx),
+        "C11" => c11::gen(&mut ctx),
         "C08" => c08::gen(&mut ctx),
         "C14" => c14::gen(&mut ctx),
         "C12" => c12::gen(&mut ctx),
